@@ -97,6 +97,10 @@ func init() {
 		Sched.preemptBound = args[1].(int)
 		return nil
 	}
+	ext[pk+"ExploreSelect"] = func(fr *frame, args []value) value {
+		Sched.exploreSelect = args[0].(bool)
+		return nil
+	}
 	ext[pk+"Note"] = func(fr *frame, args []value) value {
 		CurPath.Notes = append(CurPath.Notes, cstr(args[0]))
 		return nil
